@@ -95,6 +95,10 @@ if __name__ == '__main__':
         contract = vs[0][1]
         from . import e2all
         r = run_root(P, inst.key, contract, cut_set=None if '--nocut' in sys.argv else e2all.cut_set_for(P) - {inst.key})
+        if not r['error']:
+            contracts.post_invariants(r['interp'], inst, r['results'], r.get('args', []))
+            if vs[0][2]:
+                vs[0][2](r['interp'], inst, r['results'])
         I = r['interp']
         print('===', inst.key, 'time %.2fs' % r['time'], 'error', r['error'], 'outcomes', r.get('outcomes'))
         print('   stats', I.stats)
